@@ -32,7 +32,13 @@ var blockingQueries = map[string]int{
 	repoMod + "/registry/consul.listKeys":   2,
 }
 
+// extraPacing lets a property add repository-specific pacing operations (e.g. direct Consul queries).
+var extraPacing func(ssa.Instruction, *loop) bool
+
 func isPacingInstr(i ssa.Instruction, l *loop) bool {
+	if extraPacing != nil && extraPacing(i, l) {
+		return true
+	}
 	switch x := i.(type) {
 	case *ssa.Send:
 		return true
@@ -156,4 +162,104 @@ func runLoopPacing(c *Ctx, rule string, pkgs []string, min int) {
 		}
 	}
 	c.atLeast(rule, "condition-less loops in "+strings.Join(pkgs, ","), n, min)
+}
+
+// consulQueryCalls lists the Consul query calls (direct api calls or the repo wrappers of the
+// blocking-query table) inside loop l, with whether their wait index advances.
+func consulQueryCalls(l *loop) map[*ssa.Call]bool {
+	out := map[*ssa.Call]bool{}
+	for b := range l.Body {
+		for _, in := range b.Instrs {
+			call, ok := in.(*ssa.Call)
+			if !ok {
+				continue
+			}
+			n := calleeName(&call.Call)
+			if k, isTab := blockingQueries[n]; isTab && k < len(call.Call.Args) {
+				out[call] = waitIndexAdvances(call, call.Call.Args[k], l)
+				continue
+			}
+			if n == "(*"+apiPkg+".Health).State" || n == "(*"+apiPkg+".KV).List" || n == "(*"+apiPkg+".KV).Get" || n == "(*"+apiPkg+".Catalog).Service" {
+				if n == "(*"+apiPkg+".Catalog).Service" {
+					continue
+				}
+				out[call] = consulQueryPaced(call, l)
+			}
+		}
+	}
+	return out
+}
+
+// runConsulWatchLoops (W3): in every condition-less loop that queries Consul, (a) the query blocks
+// (advancing wait index, or a sleeping poll branch) and (b) the query's error edge sleeps before the
+// next attempt. A channel send does not count: the consumer receives at once.
+func runConsulWatchLoops(c *Ctx, rule string, pkgs []string, min int) {
+	n := 0
+	for _, f := range c.AllFns {
+		in := false
+		for _, p := range pkgs {
+			if rootPkg(f) == c.spkg(p) {
+				in = true
+			}
+		}
+		if !in {
+			continue
+		}
+		for _, l := range condLessLoops(f) {
+			for call, blocks := range consulQueryCalls(l) {
+				n++
+				c.check(rule, fnKey(f)+"|"+strings.TrimPrefix(calleeName(&call.Call), repoMod+"/")+" blocks until the registry changes", call.Pos(), blocks,
+					"the query's WaitIndex must be the loop-carried index advanced from the reply's LastIndex (or the poll branch must sleep); otherwise the query returns at once every time and the loop polls Consul at full speed")
+				// (b) error edge
+				isErr := func(v ssa.Value) bool {
+					e, ok := v.(*ssa.Extract)
+					return ok && e.Tuple == call && typeStr(e.Type()) == "error"
+				}
+				nErr := 0
+				for b := range l.Body {
+					if len(b.Preds) != 1 || !knownNonNil(b, isErr) || knownNonNil(b.Preds[0], isErr) {
+						continue
+					}
+					nErr++
+					// from b back to the head without sleeping?
+					spin := false
+					seen := map[*ssa.BasicBlock]bool{}
+					stack := []*ssa.BasicBlock{b}
+					for len(stack) > 0 && !spin {
+						x := stack[len(stack)-1]
+						stack = stack[:len(stack)-1]
+						if seen[x] {
+							continue
+						}
+						seen[x] = true
+						sleeps := false
+						for _, in := range x.Instrs {
+							if cc := callCommon(in); cc != nil && calleeName(cc) == "time.Sleep" {
+								sleeps = true
+							}
+							if u, ok := in.(*ssa.UnOp); ok && u.Op == token.ARROW {
+								sleeps = true
+							}
+						}
+						if sleeps {
+							continue
+						}
+						for _, s := range x.Succs {
+							if s == l.Head {
+								spin = true
+							} else if l.Body[s] {
+								stack = append(stack, s)
+							}
+						}
+					}
+					c.check(rule, fnKey(f)+"|error edge of the query sleeps before retrying", b.Instrs[0].Pos(), !spin,
+						"when the query fails (agent unreachable) it returns immediately; without a sleep on that edge the loop retries at full speed")
+				}
+				if nErr == 0 {
+					c.check(rule, fnKey(f)+"|error edge of the query sleeps before retrying", call.Pos(), false, "the query's error is not examined inside the loop")
+				}
+			}
+		}
+	}
+	c.atLeast(rule, "Consul queries inside watch loops of "+strings.Join(pkgs, ","), n, min)
 }
